@@ -9,6 +9,12 @@ type nat =
 | O
 | S of nat
 
+(** val option_map : ('a1 -> 'a2) -> 'a1 option -> 'a2 option **)
+
+let option_map f = function
+| Some a -> Some (f a)
+| None -> None
+
 (** val fst : ('a1 * 'a2) -> 'a1 **)
 
 let fst = function
@@ -53,6 +59,15 @@ module Coq__1 = struct
 end
 include Coq__1
 
+(** val sub : nat -> nat -> nat **)
+
+let rec sub n0 m =
+  match n0 with
+  | O -> n0
+  | S k -> (match m with
+            | O -> n0
+            | S l -> sub k l)
+
 module Nat =
  struct
   (** val eqb : nat -> nat -> bool **)
@@ -65,6 +80,20 @@ module Nat =
     | S n' -> (match m with
                | O -> false
                | S m' -> eqb n' m')
+
+  (** val leb : nat -> nat -> bool **)
+
+  let rec leb n0 m =
+    match n0 with
+    | O -> true
+    | S n' -> (match m with
+               | O -> false
+               | S m' -> leb n' m')
+
+  (** val ltb : nat -> nat -> bool **)
+
+  let ltb n0 m =
+    leb (S n0) m
  end
 
 (** val nth : nat -> 'a1 list -> 'a1 -> 'a1 **)
@@ -78,6 +107,16 @@ let rec nth n0 l default =
             | [] -> default
             | _ :: t -> nth m t default)
 
+(** val nth_error : 'a1 list -> nat -> 'a1 option **)
+
+let rec nth_error l = function
+| O -> (match l with
+        | [] -> None
+        | x :: _ -> Some x)
+| S n1 -> (match l with
+           | [] -> None
+           | _ :: l0 -> nth_error l0 n1)
+
 (** val rev : 'a1 list -> 'a1 list **)
 
 let rec rev = function
@@ -90,6 +129,25 @@ let rec rev_append l l' =
   match l with
   | [] -> l'
   | a :: l0 -> rev_append l0 (a :: l')
+
+(** val map : ('a1 -> 'a2) -> 'a1 list -> 'a2 list **)
+
+let rec map f = function
+| [] -> []
+| a :: t -> (f a) :: (map f t)
+
+(** val fold_left : ('a1 -> 'a2 -> 'a1) -> 'a2 list -> 'a1 -> 'a1 **)
+
+let rec fold_left f l a0 =
+  match l with
+  | [] -> a0
+  | b :: t -> fold_left f t (f a0 b)
+
+(** val filter : ('a1 -> bool) -> 'a1 list -> 'a1 list **)
+
+let rec filter f = function
+| [] -> []
+| x :: l0 -> if f x then x :: (filter f l0) else filter f l0
 
 (** val firstn : nat -> 'a1 list -> 'a1 list **)
 
@@ -108,6 +166,12 @@ let rec skipn n0 l =
   | S n1 -> (match l with
              | [] -> []
              | _ :: l0 -> skipn n1 l0)
+
+(** val repeat : 'a1 -> nat -> 'a1 list **)
+
+let rec repeat x = function
+| O -> []
+| S k -> x :: (repeat x k)
 
 type positive =
 | XI of positive
@@ -302,6 +366,56 @@ module Coq_Pos =
              | XH -> true
              | _ -> false)
 
+  (** val coq_Nsucc_double : n -> n **)
+
+  let coq_Nsucc_double = function
+  | N0 -> Npos XH
+  | Npos p -> Npos (XI p)
+
+  (** val coq_Ndouble : n -> n **)
+
+  let coq_Ndouble = function
+  | N0 -> N0
+  | Npos p -> Npos (XO p)
+
+  (** val coq_land : positive -> positive -> n **)
+
+  let rec coq_land p q =
+    match p with
+    | XI p0 ->
+      (match q with
+       | XI q0 -> coq_Nsucc_double (coq_land p0 q0)
+       | XO q0 -> coq_Ndouble (coq_land p0 q0)
+       | XH -> Npos XH)
+    | XO p0 ->
+      (match q with
+       | XI q0 -> coq_Ndouble (coq_land p0 q0)
+       | XO q0 -> coq_Ndouble (coq_land p0 q0)
+       | XH -> N0)
+    | XH -> (match q with
+             | XO _ -> N0
+             | _ -> Npos XH)
+
+  (** val coq_lxor : positive -> positive -> n **)
+
+  let rec coq_lxor p q =
+    match p with
+    | XI p0 ->
+      (match q with
+       | XI q0 -> coq_Ndouble (coq_lxor p0 q0)
+       | XO q0 -> coq_Nsucc_double (coq_lxor p0 q0)
+       | XH -> Npos (XO p0))
+    | XO p0 ->
+      (match q with
+       | XI q0 -> coq_Nsucc_double (coq_lxor p0 q0)
+       | XO q0 -> coq_Ndouble (coq_lxor p0 q0)
+       | XH -> Npos (XI p0))
+    | XH ->
+      (match q with
+       | XI q0 -> Npos (XO q0)
+       | XO q0 -> Npos (XI q0)
+       | XH -> N0)
+
   (** val iter_op : ('a1 -> 'a1 -> 'a1) -> positive -> 'a1 -> 'a1 **)
 
   let rec iter_op op p a =
@@ -448,6 +562,24 @@ module N =
 
   let modulo a b =
     snd (div_eucl a b)
+
+  (** val coq_land : n -> n -> n **)
+
+  let coq_land n0 m =
+    match n0 with
+    | N0 -> N0
+    | Npos p -> (match m with
+                 | N0 -> N0
+                 | Npos q -> Coq_Pos.coq_land p q)
+
+  (** val coq_lxor : n -> n -> n **)
+
+  let coq_lxor n0 m =
+    match n0 with
+    | N0 -> m
+    | Npos p -> (match m with
+                 | N0 -> n0
+                 | Npos q -> Coq_Pos.coq_lxor p q)
 
   (** val to_nat : n -> nat **)
 
@@ -1087,6 +1219,13 @@ let s_bad =
     (XI (XO (XI (XI XH))))))) :: ((Npos (XO (XO (XI (XO (XI (XI
     XH))))))) :: [])))))))
 
+(** val s_none : str **)
+
+let s_none =
+  (Npos (XO (XI (XI (XI (XO (XI XH))))))) :: ((Npos (XI (XI (XI (XI (XO (XI
+    XH))))))) :: ((Npos (XO (XI (XI (XI (XO (XI XH))))))) :: ((Npos (XI (XO
+    (XI (XO (XO (XI XH))))))) :: [])))
+
 (** val s_utc : str **)
 
 let s_utc =
@@ -1409,6 +1548,1368 @@ let run_dec = function
          | None -> s_bad)
       | _ :: _ -> s_bad))
 
+(** val fnv_prime : n **)
+
+let fnv_prime =
+  Npos (XI (XI (XO (XO (XI (XI (XO (XI (XI (XO (XO (XO (XO (XO (XO (XO (XO
+    (XO (XO (XO (XO (XO (XO (XO (XO (XO (XO (XO (XO (XO (XO (XO (XO (XO (XO
+    (XO (XO (XO (XO (XO XH))))))))))))))))))))))))))))))))))))))))
+
+(** val mask64 : n **)
+
+let mask64 =
+  Npos (XI (XI (XI (XI (XI (XI (XI (XI (XI (XI (XI (XI (XI (XI (XI (XI (XI
+    (XI (XI (XI (XI (XI (XI (XI (XI (XI (XI (XI (XI (XI (XI (XI (XI (XI (XI
+    (XI (XI (XI (XI (XI (XI (XI (XI (XI (XI (XI (XI (XI (XI (XI (XI (XI (XI
+    (XI (XI (XI (XI (XI (XI (XI (XI (XI (XI
+    XH)))))))))))))))))))))))))))))))))))))))))))))))))))))))))))))))
+
+(** val fnv_step : n -> n -> n **)
+
+let fnv_step h b =
+  N.coq_land (N.mul fnv_prime (N.coq_lxor h b)) mask64
+
+(** val fnv_add : n -> bytes -> n **)
+
+let fnv_add h bs =
+  fold_left fnv_step bs h
+
+(** val fnv_add_u64 : n -> n -> n **)
+
+let fnv_add_u64 h u =
+  fnv_add h (be64 u)
+
+(** val extensionMagicPrefix : n **)
+
+let extensionMagicPrefix =
+  Npos (XI (XI (XO (XO (XO (XO (XO (XO (XI (XO (XI (XO (XO (XI (XO (XI (XO
+    (XI (XO (XO (XI (XO (XO (XI (XI (XI (XO (XO (XO (XO (XO (XO (XO (XI (XI
+    (XO (XI (XO (XI (XI (XI (XO (XO (XI (XI (XI (XI (XI (XI (XO (XO (XO (XI
+    (XO (XI (XI (XI (XI (XI (XI (XO (XI (XO
+    XH)))))))))))))))))))))))))))))))))))))))))))))))))))))))))))))))
+
+type entry = { e_index : n; e_term : n; e_type : n; e_data : bytes;
+               e_ext : bytes }
+
+(** val log_configuration : n **)
+
+let log_configuration =
+  Npos (XI (XO XH))
+
+(** val is_bootstrap : entry -> bool **)
+
+let is_bootstrap e =
+  (&&) (N.eqb e.e_index (Npos XH)) (N.eqb e.e_type log_configuration)
+
+(** val checksum_log : n -> entry -> n **)
+
+let checksum_log sum e =
+  if is_bootstrap e
+  then N0
+  else let s1 = fnv_add_u64 sum e.e_index in
+       let s2 = fnv_add_u64 s1 e.e_term in
+       let s3 = fnv_add_u64 s2 e.e_type in
+       let s4 = fnv_add s3 e.e_data in
+       (match e.e_ext with
+        | [] -> s4
+        | _ :: _ -> fnv_add s4 e.e_ext)
+
+(** val encode_meta : n -> n -> bytes **)
+
+let encode_meta start sum =
+  app (le64 extensionMagicPrefix) (app (le64 start) (le64 sum))
+
+type meta_res =
+| MetaOk of n * n
+| MetaErr
+
+(** val decode_meta : bytes -> meta_res **)
+
+let decode_meta bs =
+  if Nat.ltb (length bs) (S (S (S (S (S (S (S (S (S (S (S (S (S (S (S (S (S
+       (S (S (S (S (S (S (S O))))))))))))))))))))))))
+  then MetaErr
+  else if N.eqb (rd64 (firstn (S (S (S (S (S (S (S (S O)))))))) bs))
+            extensionMagicPrefix
+       then MetaOk
+              ((rd64
+                 (firstn (S (S (S (S (S (S (S (S O))))))))
+                   (skipn (S (S (S (S (S (S (S (S O)))))))) bs))),
+              (rd64
+                (firstn (S (S (S (S (S (S (S (S O))))))))
+                  (skipn (S (S (S (S (S (S (S (S (S (S (S (S (S (S (S (S
+                    O)))))))))))))))) bs))))
+       else MetaErr
+
+(** val set_ext : entry -> bytes -> entry **)
+
+let set_ext e x =
+  { e_index = e.e_index; e_term = e.e_term; e_type = e.e_type; e_data =
+    e.e_data; e_ext = x }
+
+type sstore = { s_first : n; s_logs : entry list }
+
+(** val s_empty : sstore **)
+
+let s_empty =
+  { s_first = N0; s_logs = [] }
+
+(** val first_index : sstore -> n **)
+
+let first_index s =
+  match s.s_logs with
+  | [] -> N0
+  | _ :: _ -> s.s_first
+
+(** val last_index : sstore -> n **)
+
+let last_index s =
+  match s.s_logs with
+  | [] -> N0
+  | _ :: _ -> N.sub (N.add s.s_first (N.of_nat (length s.s_logs))) (Npos XH)
+
+(** val get : sstore -> n -> entry option **)
+
+let get s i =
+  if N.ltb i s.s_first
+  then None
+  else nth_error s.s_logs (N.to_nat (N.sub i s.s_first))
+
+(** val contig_from : n -> entry list -> bool **)
+
+let rec contig_from i = function
+| [] -> true
+| e :: r -> (&&) (N.eqb e.e_index i) (contig_from (N.add i (Npos XH)) r)
+
+(** val store_logs : sstore -> entry list -> sstore option **)
+
+let store_logs s b = match b with
+| [] -> Some s
+| e0 :: _ ->
+  (match s.s_logs with
+   | [] ->
+     if N.eqb e0.e_index N0
+     then None
+     else if contig_from e0.e_index b
+          then Some { s_first = e0.e_index; s_logs = b }
+          else None
+   | _ :: _ ->
+     if contig_from (N.add s.s_first (N.of_nat (length s.s_logs))) b
+     then Some { s_first = s.s_first; s_logs = (app s.s_logs b) }
+     else None)
+
+(** val delete_range : sstore -> n -> n -> sstore option **)
+
+let delete_range s mn mx =
+  if N.ltb mx mn
+  then Some s
+  else (match s.s_logs with
+        | [] -> Some s
+        | _ :: _ ->
+          let f = s.s_first in
+          let l = last_index s in
+          if (||) (N.ltb mx f) (N.ltb l mn)
+          then Some s
+          else if N.leb mn f
+               then if N.leb l mx
+                    then Some s_empty
+                    else Some { s_first = (N.add mx (Npos XH)); s_logs =
+                           (skipn (N.to_nat (N.sub (N.add mx (Npos XH)) f))
+                             s.s_logs) }
+               else if N.leb l mx
+                    then Some { s_first = f; s_logs =
+                           (firstn (N.to_nat (N.sub mn f)) s.s_logs) }
+                    else None)
+
+(** val set_nth : 'a1 list -> nat -> 'a1 -> 'a1 list **)
+
+let rec set_nth l k x =
+  match l with
+  | [] -> []
+  | y :: r -> (match k with
+               | O -> x :: r
+               | S k' -> y :: (set_nth r k' x))
+
+(** val tamper : sstore -> n -> entry -> sstore **)
+
+let tamper s i e =
+  if N.ltb i s.s_first
+  then s
+  else { s_first = s.s_first; s_logs =
+         (set_nth s.s_logs (N.to_nat (N.sub i s.s_first)) e) }
+
+type errkind =
+| ENone
+| ECkInflight
+| ECkStorage
+| ERange
+| EOther
+
+type report = { r_start : n; r_end : n; r_expected : n; r_written : n;
+                r_read : n; r_err : errkind; r_skipped : (n * n) option }
+
+(** val set_err : report -> errkind -> report **)
+
+let set_err r k =
+  { r_start = r.r_start; r_end = r.r_end; r_expected = r.r_expected;
+    r_written = r.r_written; r_read = r.r_read; r_err = k; r_skipped =
+    r.r_skipped }
+
+(** val set_read : report -> n -> report **)
+
+let set_read r v =
+  { r_start = r.r_start; r_end = r.r_end; r_expected = r.r_expected;
+    r_written = r.r_written; r_read = v; r_err = r.r_err; r_skipped =
+    r.r_skipped }
+
+(** val set_skipped : report -> (n * n) option -> report **)
+
+let set_skipped r k =
+  { r_start = r.r_start; r_end = r.r_end; r_expected = r.r_expected;
+    r_written = r.r_written; r_read = r.r_read; r_err = r.r_err; r_skipped =
+    k }
+
+type vstate = { v_sum : n; v_start : n }
+
+(** val v_init : vstate **)
+
+let v_init =
+  { v_sum = N0; v_start = N0 }
+
+type uvs_res =
+| UvsErr
+| UvsOk of n * n * report option * entry
+
+(** val new_report : n -> n -> n -> n -> report **)
+
+let new_report st en expd wr =
+  { r_start = st; r_end = en; r_expected = expd; r_written = wr; r_read = N0;
+    r_err = ENone; r_skipped = None }
+
+(** val update_verify_state :
+    (entry -> bool option) -> entry -> n -> n -> uvs_res **)
+
+let update_verify_state cpf e cs start =
+  match cpf e with
+  | Some is_cp ->
+    let start0 = if N.eqb start N0 then e.e_index else start in
+    if is_cp
+    then (match e.e_ext with
+          | [] ->
+            let e' = set_ext e (encode_meta start0 cs) in
+            UvsOk ((checksum_log N0 e'), e.e_index, (Some
+            (new_report start0 e.e_index cs cs)), e')
+          | _ :: _ ->
+            (match decode_meta e.e_ext with
+             | MetaOk (cp_start, cp_sum) ->
+               let w = if N.eqb cp_start start0 then cs else N0 in
+               UvsOk ((checksum_log N0 e), e.e_index, (Some
+               (new_report cp_start e.e_index cp_sum w)), e)
+             | MetaErr -> UvsErr))
+    else UvsOk ((checksum_log cs e), start0, None, e)
+  | None -> UvsErr
+
+(** val opt_list : 'a1 option -> 'a1 list **)
+
+let opt_list = function
+| Some x -> x :: []
+| None -> []
+
+(** val uvs_loop :
+    (entry -> bool option) -> entry list -> n -> n -> (((n * n) * report
+    list) * entry list) option **)
+
+let rec uvs_loop cpf b cs start =
+  match b with
+  | [] -> Some (((cs, start), []), [])
+  | e :: r ->
+    (match update_verify_state cpf e cs start with
+     | UvsErr -> None
+     | UvsOk (cs', st', ro, e') ->
+       (match uvs_loop cpf r cs' st' with
+        | Some p ->
+          let (p0, es) = p in
+          let (p1, rs) = p0 in Some ((p1, (app (opt_list ro) rs)), (e' :: es))
+        | None -> None))
+
+type sres =
+| SOk
+| SErrVfy
+| SErrStore
+
+type store_out = { o_res : sres; o_v : vstate; o_store : sstore;
+                   o_reports : report list; o_batch : entry list;
+                   o_called : bool }
+
+(** val vstore_logs :
+    (entry -> bool option) -> bool -> vstate -> sstore -> entry list ->
+    store_out **)
+
+let vstore_logs cpf fail v s b = match b with
+| [] ->
+  { o_res = SOk; o_v = v; o_store = s; o_reports = []; o_batch = [];
+    o_called = false }
+| _ :: _ ->
+  (match uvs_loop cpf b v.v_sum v.v_start with
+   | Some p ->
+     let (p0, b') = p in
+     let (p1, rs) = p0 in
+     let (cs, st) = p1 in
+     (match if fail then None else store_logs s b' with
+      | Some s' ->
+        { o_res = SOk; o_v = { v_sum = cs; v_start = st }; o_store = s';
+          o_reports = rs; o_batch = b'; o_called = true }
+      | None ->
+        { o_res = SErrStore; o_v = v; o_store = s; o_reports = []; o_batch =
+          b'; o_called = true })
+   | None ->
+     { o_res = SErrVfy; o_v = v; o_store = s; o_reports = []; o_batch = [];
+       o_called = false })
+
+(** val vdelete_range :
+    vstate -> sstore -> n -> n -> (bool * vstate) * sstore **)
+
+let vdelete_range v s mn mx =
+  match delete_range s mn mx with
+  | Some s' -> ((true, v_init), s')
+  | None -> ((false, v), s)
+
+(** val read_range : sstore -> n -> nat -> n -> n option **)
+
+let rec read_range s idx n0 sum =
+  match n0 with
+  | O -> Some sum
+  | S k ->
+    (match get s idx with
+     | Some e -> read_range s (N.add idx (Npos XH)) k (checksum_log sum e)
+     | None -> None)
+
+(** val verify : sstore -> report -> report **)
+
+let verify s r =
+  if (&&) (negb (N.eqb r.r_written N0))
+       (negb (N.eqb r.r_written r.r_expected))
+  then set_err r ECkInflight
+  else if N.ltb r.r_start (first_index s)
+       then set_err r ERange
+       else (match read_range s r.r_start
+                     (N.to_nat (N.sub r.r_end r.r_start)) N0 with
+             | Some sum ->
+               let r' = set_read r sum in
+               if N.eqb sum r.r_expected then r' else set_err r' ECkStorage
+             | None -> set_err r EOther)
+
+type treport = report * report list
+
+type vchan = { c_pending : report list; c_ch : treport option;
+               c_inprog : treport option; c_last : n;
+               c_delivered : treport list; c_dropped : n; c_written : 
+               n; g_drops : report list }
+
+(** val c_init : vchan **)
+
+let c_init =
+  { c_pending = []; c_ch = None; c_inprog = None; c_last = N0; c_delivered =
+    []; c_dropped = N0; c_written = N0; g_drops = [] }
+
+(** val ch_push : vchan -> report list -> vchan **)
+
+let ch_push c rs =
+  { c_pending = (app c.c_pending rs); c_ch = c.c_ch; c_inprog = c.c_inprog;
+    c_last = c.c_last; c_delivered = c.c_delivered; c_dropped = c.c_dropped;
+    c_written = (N.add c.c_written (N.of_nat (length rs))); g_drops =
+    c.g_drops }
+
+(** val ch_send : vchan -> vchan **)
+
+let ch_send c =
+  match c.c_pending with
+  | [] -> c
+  | r :: rest ->
+    (match c.c_ch with
+     | Some _ ->
+       { c_pending = rest; c_ch = c.c_ch; c_inprog = c.c_inprog; c_last =
+         c.c_last; c_delivered = c.c_delivered; c_dropped =
+         (N.add c.c_dropped (Npos XH)); c_written = c.c_written; g_drops =
+         (app c.g_drops (r :: [])) }
+     | None ->
+       { c_pending = rest; c_ch = (Some (r, c.g_drops)); c_inprog =
+         c.c_inprog; c_last = c.c_last; c_delivered = c.c_delivered;
+         c_dropped = c.c_dropped; c_written = c.c_written; g_drops = [] })
+
+(** val skipped_of : n -> n -> (n * n) option **)
+
+let skipped_of last start =
+  if (&&) (N.ltb N0 last) (negb (N.eqb last start))
+  then Some (last, start)
+  else None
+
+(** val ch_recv : sstore -> vchan -> vchan **)
+
+let ch_recv s c =
+  match c.c_inprog with
+  | Some _ -> c
+  | None ->
+    (match c.c_ch with
+     | Some t ->
+       let (r, d) = t in
+       let r1 = set_skipped r (skipped_of c.c_last r.r_start) in
+       { c_pending = c.c_pending; c_ch = None; c_inprog = (Some
+       ((verify s r1), d)); c_last = r.r_end; c_delivered = c.c_delivered;
+       c_dropped = c.c_dropped; c_written = c.c_written; g_drops = c.g_drops }
+     | None -> c)
+
+(** val ch_return : vchan -> vchan **)
+
+let ch_return c =
+  match c.c_inprog with
+  | Some x ->
+    { c_pending = c.c_pending; c_ch = c.c_ch; c_inprog = None; c_last =
+      c.c_last; c_delivered = (app c.c_delivered (x :: [])); c_dropped =
+      c.c_dropped; c_written = c.c_written; g_drops = c.g_drops }
+  | None -> c
+
+(** val ch_quiescent : vchan -> bool **)
+
+let ch_quiescent c =
+  match c.c_pending with
+  | [] ->
+    (match c.c_ch with
+     | Some _ -> false
+     | None -> (match c.c_inprog with
+                | Some _ -> false
+                | None -> true))
+  | _ :: _ -> false
+
+(** val ch_restart : vchan -> vchan **)
+
+let ch_restart c =
+  { c_pending = []; c_ch = None; c_inprog = None; c_last = N0; c_delivered =
+    c.c_delivered; c_dropped = c.c_dropped; c_written = c.c_written;
+    g_drops = [] }
+
+type node = { n_v : vstate; n_store : sstore; n_shadow : sstore;
+              n_fail : bool; n_c : vchan }
+
+(** val node_init : node **)
+
+let node_init =
+  { n_v = v_init; n_store = s_empty; n_shadow = s_empty; n_fail = false;
+    n_c = c_init }
+
+(** val with_c : node -> vchan -> node **)
+
+let with_c nd c =
+  { n_v = nd.n_v; n_store = nd.n_store; n_shadow = nd.n_shadow; n_fail =
+    nd.n_fail; n_c = c }
+
+(** val node_store :
+    (entry -> bool option) -> node -> entry list -> (sres * node) * report
+    list **)
+
+let node_store cpf nd b =
+  let o = vstore_logs cpf nd.n_fail nd.n_v nd.n_store b in
+  let sh' =
+    match o.o_res with
+    | SOk ->
+      (match store_logs nd.n_shadow o.o_batch with
+       | Some x -> x
+       | None -> nd.n_shadow)
+    | _ -> nd.n_shadow
+  in
+  ((o.o_res, { n_v = o.o_v; n_store = o.o_store; n_shadow = sh'; n_fail =
+  (if o.o_called then false else nd.n_fail); n_c =
+  (ch_push nd.n_c o.o_reports) }), o.o_reports)
+
+(** val node_delete : node -> n -> n -> bool * node **)
+
+let node_delete nd mn mx =
+  let (p, s') = vdelete_range nd.n_v nd.n_store mn mx in
+  let (ok, v') = p in
+  let sh' =
+    if ok
+    then (match delete_range nd.n_shadow mn mx with
+          | Some x -> x
+          | None -> nd.n_shadow)
+    else nd.n_shadow
+  in
+  (ok, { n_v = v'; n_store = s'; n_shadow = sh'; n_fail = nd.n_fail; n_c =
+  nd.n_c })
+
+(** val node_restart : node -> node **)
+
+let node_restart nd =
+  if ch_quiescent nd.n_c
+  then { n_v = v_init; n_store = nd.n_store; n_shadow = nd.n_shadow; n_fail =
+         nd.n_fail; n_c = (ch_restart nd.n_c) }
+  else nd
+
+(** val node_tamper : node -> n -> entry -> node **)
+
+let node_tamper nd i e =
+  { n_v = nd.n_v; n_store = (tamper nd.n_store i e); n_shadow = nd.n_shadow;
+    n_fail = nd.n_fail; n_c = nd.n_c }
+
+(** val node_arm_fail : node -> node **)
+
+let node_arm_fail nd =
+  { n_v = nd.n_v; n_store = nd.n_store; n_shadow = nd.n_shadow; n_fail =
+    true; n_c = nd.n_c }
+
+type event =
+| HStore of nat * entry list
+| HDelete of nat * n * n
+| HRestart of nat
+| HTamper of nat * n * entry
+| HFail of nat
+| HSend of nat
+| HRecv of nat
+| HReturn of nat
+
+(** val ev_node : event -> nat **)
+
+let ev_node = function
+| HStore (n0, _) -> n0
+| HDelete (n0, _, _) -> n0
+| HRestart n0 -> n0
+| HTamper (n0, _, _) -> n0
+| HFail n0 -> n0
+| HSend n0 -> n0
+| HRecv n0 -> n0
+| HReturn n0 -> n0
+
+(** val node_step : (entry -> bool option) -> node -> event -> node **)
+
+let node_step cpf nd = function
+| HStore (_, b) ->
+  (match nd.n_c.c_pending with
+   | [] -> snd (fst (node_store cpf nd b))
+   | _ :: _ -> nd)
+| HDelete (_, mn, mx) -> snd (node_delete nd mn mx)
+| HRestart _ -> node_restart nd
+| HTamper (_, i, e) -> node_tamper nd i e
+| HFail _ -> node_arm_fail nd
+| HSend _ -> with_c nd (ch_send nd.n_c)
+| HRecv _ -> with_c nd (ch_recv nd.n_store nd.n_c)
+| HReturn _ -> with_c nd (ch_return nd.n_c)
+
+(** val upd_nth : node list -> nat -> (node -> node) -> node list **)
+
+let rec upd_nth l k f =
+  match l with
+  | [] -> []
+  | x :: r -> (match k with
+               | O -> (f x) :: r
+               | S k' -> x :: (upd_nth r k' f))
+
+type sys = node list
+
+(** val sys_init : nat -> sys **)
+
+let sys_init k =
+  repeat node_init k
+
+(** val node_at : sys -> nat -> node **)
+
+let node_at st n0 =
+  nth n0 st node_init
+
+(** val step : (entry -> bool option) -> sys -> event -> sys **)
+
+let step cpf st ev =
+  upd_nth st (ev_node ev) (fun nd -> node_step cpf nd ev)
+
+(** val run_cpf : entry -> bool option **)
+
+let run_cpf e =
+  match e.e_data with
+  | [] -> Some false
+  | b :: _ ->
+    if N.eqb b (Npos (XO (XO (XO (XO (XO (XO (XI XH))))))))
+    then Some true
+    else if N.eqb b (Npos (XO (XI (XI (XI (XO (XO (XI XH))))))))
+         then None
+         else Some false
+
+(** val bar : n **)
+
+let bar =
+  Npos (XO (XO (XI (XI (XI (XI XH))))))
+
+(** val groups_aux : str list -> str list -> str list list **)
+
+let rec groups_aux ts cur =
+  match ts with
+  | [] -> (rev_append cur []) :: []
+  | t :: r ->
+    if str_eqb t (bar :: [])
+    then (rev_append cur []) :: (groups_aux r [])
+    else groups_aux r (t :: cur)
+
+(** val groups : str list -> str list list **)
+
+let groups ts =
+  groups_aux ts []
+
+type rstate = { rs_sys : sys; rs_blocked : bool list }
+
+(** val blocked_at : rstate -> nat -> bool **)
+
+let blocked_at st n0 =
+  nth n0 st.rs_blocked false
+
+(** val set_nth_b : bool list -> nat -> bool -> bool list **)
+
+let rec set_nth_b l k v =
+  match l with
+  | [] -> []
+  | x :: r -> (match k with
+               | O -> v :: r
+               | S k' -> x :: (set_nth_b r k' v))
+
+(** val do_ev : rstate -> event -> rstate **)
+
+let do_ev st ev =
+  { rs_sys = (step run_cpf st.rs_sys ev); rs_blocked = st.rs_blocked }
+
+(** val settle : nat -> rstate -> nat -> rstate **)
+
+let rec settle fuel st n0 =
+  match fuel with
+  | O -> st
+  | S k ->
+    let st1 = if blocked_at st n0 then st else do_ev st (HReturn n0) in
+    let st2 = do_ev st1 (HRecv n0) in settle k st2 n0
+
+(** val sends : nat -> rstate -> nat -> rstate **)
+
+let rec sends k st n0 =
+  match k with
+  | O -> st
+  | S k' -> sends k' (do_ev st (HSend n0)) n0
+
+(** val s_ev : str **)
+
+let s_ev =
+  (Npos (XI (XO (XI (XO (XO (XI XH))))))) :: ((Npos (XO (XI (XI (XO (XI (XI
+    XH))))))) :: [])
+
+(** val s_es : str **)
+
+let s_es =
+  (Npos (XI (XO (XI (XO (XO (XI XH))))))) :: ((Npos (XI (XI (XO (XO (XI (XI
+    XH))))))) :: [])
+
+(** val s_er : str **)
+
+let s_er =
+  (Npos (XI (XO (XI (XO (XO (XI XH))))))) :: ((Npos (XO (XI (XO (XO (XI (XI
+    XH))))))) :: [])
+
+(** val s_nf : str **)
+
+let s_nf =
+  (Npos (XO (XI (XI (XI (XO (XI XH))))))) :: ((Npos (XO (XI (XI (XO (XO (XI
+    XH))))))) :: [])
+
+(** val s_no : str **)
+
+let s_no =
+  (Npos (XO (XI (XI (XI (XO (XI XH))))))) :: ((Npos (XI (XI (XI (XI (XO (XI
+    XH))))))) :: [])
+
+(** val s_rc : str **)
+
+let s_rc =
+  (Npos (XO (XI (XO (XO (XI (XI XH))))))) :: ((Npos (XI (XI (XO (XO (XO (XI
+    XH))))))) :: [])
+
+(** val show_sres : sres -> str **)
+
+let show_sres = function
+| SOk -> s_ok
+| SErrVfy -> s_ev
+| SErrStore -> s_es
+
+(** val count_cp : entry list -> nat **)
+
+let count_cp b =
+  length
+    (filter (fun e -> match run_cpf e with
+                      | Some b0 -> b0
+                      | None -> false) b)
+
+(** val do_store : rstate -> nat -> entry list -> rstate * str **)
+
+let do_store st n0 b =
+  let nd = node_at st.rs_sys n0 in
+  (match nd.n_c.c_inprog with
+   | Some _ ->
+     let (p, rs) = node_store run_cpf nd b in
+     let (res, _) = p in
+     let st1 = do_ev st (HStore (n0, b)) in
+     ((settle (S (S (S O))) (sends (length rs) st1 n0) n0), (show_sres res))
+   | None ->
+     if Nat.ltb (S O) (count_cp b)
+     then (st, s_rc)
+     else let (p, rs) = node_store run_cpf nd b in
+          let (res, _) = p in
+          let st1 = do_ev st (HStore (n0, b)) in
+          ((settle (S (S (S O))) (sends (length rs) st1 n0) n0),
+          (show_sres res)))
+
+(** val parse_nat : str -> nat option **)
+
+let parse_nat s =
+  match hex_to_N s with
+  | Some v -> Some (N.to_nat v)
+  | None -> None
+
+(** val parse_entries : nat -> str list -> (entry list * str list) option **)
+
+let rec parse_entries cnt ts =
+  match cnt with
+  | O -> Some ([], ts)
+  | S k ->
+    (match ts with
+     | [] -> None
+     | i :: l ->
+       (match l with
+        | [] -> None
+        | t :: l0 ->
+          (match l0 with
+           | [] -> None
+           | y :: l1 ->
+             (match l1 with
+              | [] -> None
+              | d :: l2 ->
+                (match l2 with
+                 | [] -> None
+                 | x :: rest ->
+                   (match hex_to_N i with
+                    | Some i0 ->
+                      (match hex_to_N t with
+                       | Some t0 ->
+                         (match hex_to_N y with
+                          | Some y0 ->
+                            (match hex_to_bytes d with
+                             | Some d0 ->
+                               (match hex_to_bytes x with
+                                | Some x0 ->
+                                  (match parse_entries k rest with
+                                   | Some p ->
+                                     let (es, rest') = p in
+                                     Some (({ e_index = i0; e_term = t0;
+                                     e_type = y0; e_data = d0; e_ext =
+                                     x0 } :: es), rest')
+                                   | None -> None)
+                                | None -> None)
+                             | None -> None)
+                          | None -> None)
+                       | None -> None)
+                    | None -> None))))))
+
+(** val xor_at : bytes -> n -> n -> bytes **)
+
+let xor_at bs pos mask0 =
+  match nth_error bs (N.to_nat pos) with
+  | Some v -> set_nth bs (N.to_nat pos) (N.coq_lxor v mask0)
+  | None -> bs
+
+(** val mk_entry : n -> n -> n -> bytes -> bytes -> entry **)
+
+let mk_entry i t y d x =
+  { e_index = i; e_term = t; e_type = y; e_data = d; e_ext = x }
+
+(** val k1 : n -> str **)
+
+let k1 c =
+  c :: []
+
+(** val k2 : n -> n -> str **)
+
+let k2 c d =
+  c :: (d :: [])
+
+(** val apply_mut : entry -> str -> str -> str -> entry option **)
+
+let apply_mut e kind a b =
+  let i = e.e_index in
+  let t = e.e_term in
+  let y = e.e_type in
+  let d = e.e_data in
+  let x = e.e_ext in
+  if str_eqb kind (k1 (Npos (XI (XO (XO (XI (XO (XI XH))))))))
+  then option_map (fun v -> mk_entry v t y d x) (hex_to_N a)
+  else if str_eqb kind (k1 (Npos (XO (XO (XI (XO (XI (XI XH))))))))
+       then option_map (fun v -> mk_entry i v y d x) (hex_to_N a)
+       else if str_eqb kind (k1 (Npos (XI (XO (XO (XI (XI (XI XH))))))))
+            then option_map (fun v -> mk_entry i t v d x) (hex_to_N a)
+            else if str_eqb kind (k1 (Npos (XO (XO (XI (XO (XO (XI XH))))))))
+                 then option_map (fun v -> mk_entry i t y v x)
+                        (hex_to_bytes a)
+                 else if str_eqb kind
+                           (k1 (Npos (XI (XO (XI (XO (XO (XI XH))))))))
+                      then option_map (fun v -> mk_entry i t y d v)
+                             (hex_to_bytes a)
+                      else if str_eqb kind
+                                (k2 (Npos (XO (XI (XI (XO (XO (XI XH)))))))
+                                  (Npos (XO (XO (XI (XO (XO (XI XH))))))))
+                           then (match hex_to_N a with
+                                 | Some p ->
+                                   (match hex_to_N b with
+                                    | Some m ->
+                                      Some (mk_entry i t y (xor_at d p m) x)
+                                    | None -> None)
+                                 | None -> None)
+                           else if str_eqb kind
+                                     (k2 (Npos (XO (XI (XI (XO (XO (XI
+                                       XH))))))) (Npos (XI (XO (XI (XO (XO
+                                       (XI XH))))))))
+                                then (match hex_to_N a with
+                                      | Some p ->
+                                        (match hex_to_N b with
+                                         | Some m ->
+                                           Some
+                                             (mk_entry i t y d (xor_at x p m))
+                                         | None -> None)
+                                      | None -> None)
+                                else if str_eqb kind
+                                          (k2 (Npos (XI (XO (XO (XO (XO (XI
+                                            XH))))))) (Npos (XO (XO (XI (XO
+                                            (XO (XI XH))))))))
+                                     then option_map (fun v ->
+                                            mk_entry i t y (app d v) x)
+                                            (hex_to_bytes a)
+                                     else if str_eqb kind
+                                               (k2 (Npos (XI (XO (XO (XO (XO
+                                                 (XI XH))))))) (Npos (XI (XO
+                                                 (XI (XO (XO (XI XH))))))))
+                                          then option_map (fun v ->
+                                                 mk_entry i t y d (app x v))
+                                                 (hex_to_bytes a)
+                                          else if str_eqb kind
+                                                    (k2 (Npos (XI (XI (XO (XO
+                                                      (XO (XI XH))))))) (Npos
+                                                      (XO (XO (XI (XO (XO (XI
+                                                      XH))))))))
+                                               then option_map (fun v ->
+                                                      mk_entry i t y
+                                                        (firstn (N.to_nat v)
+                                                          d) x) (hex_to_N a)
+                                               else if str_eqb kind
+                                                         (k2 (Npos (XI (XI
+                                                           (XO (XO (XO (XI
+                                                           XH))))))) (Npos
+                                                           (XI (XO (XI (XO
+                                                           (XO (XI XH))))))))
+                                                    then option_map (fun v ->
+                                                           mk_entry i t y d
+                                                             (firstn
+                                                               (N.to_nat v) x))
+                                                           (hex_to_N a)
+                                                    else if str_eqb kind
+                                                              (k2 (Npos (XI
+                                                                (XI (XO (XO
+                                                                (XI (XI
+                                                                XH)))))))
+                                                                (Npos (XO (XO
+                                                                (XO (XI (XO
+                                                                (XI XH))))))))
+                                                         then option_map
+                                                                (fun v ->
+                                                                let keep =
+                                                                  sub
+                                                                    (length d)
+                                                                    (N.to_nat
+                                                                    v)
+                                                                in
+                                                                mk_entry i t
+                                                                  y
+                                                                  (firstn
+                                                                    keep d)
+                                                                  (app
+                                                                    (skipn
+                                                                    keep d) x))
+                                                                (hex_to_N a)
+                                                         else None
+
+type mutation = { m_idx : n; m_kind : str; m_a : str; m_b : str }
+
+(** val parse_muts : nat -> str list -> (mutation list * str list) option **)
+
+let rec parse_muts cnt ts =
+  match cnt with
+  | O -> Some ([], ts)
+  | S k ->
+    (match ts with
+     | [] -> None
+     | i :: l ->
+       (match l with
+        | [] -> None
+        | kd :: l0 ->
+          (match l0 with
+           | [] -> None
+           | a :: l1 ->
+             (match l1 with
+              | [] -> None
+              | b :: rest ->
+                (match hex_to_N i with
+                 | Some i0 ->
+                   (match parse_muts k rest with
+                    | Some p ->
+                      let (ms, rest') = p in
+                      Some (({ m_idx = i0; m_kind = kd; m_a = a; m_b =
+                      b } :: ms), rest')
+                    | None -> None)
+                 | None -> None)))))
+
+(** val mutate_at : mutation list -> n -> entry -> entry option **)
+
+let rec mutate_at ms idx e =
+  match ms with
+  | [] -> Some e
+  | m :: r ->
+    if N.eqb m.m_idx idx
+    then (match apply_mut e m.m_kind m.m_a m.m_b with
+          | Some e' -> mutate_at r idx e'
+          | None -> None)
+    else mutate_at r idx e
+
+(** val parse_nats : str list -> nat list option **)
+
+let rec parse_nats = function
+| [] -> Some []
+| t :: r ->
+  (match parse_nat t with
+   | Some v ->
+     (match parse_nats r with
+      | Some vs -> Some (v :: vs)
+      | None -> None)
+   | None -> None)
+
+(** val read_mut :
+    sstore -> mutation list -> n -> nat -> entry list option option **)
+
+let rec read_mut s ms idx = function
+| O -> Some (Some [])
+| S k ->
+  (match get s idx with
+   | Some e ->
+     (match mutate_at ms idx e with
+      | Some e' ->
+        (match read_mut s ms (N.add idx (Npos XH)) k with
+         | Some o ->
+           (match o with
+            | Some r -> Some (Some (e' :: r))
+            | None -> Some None)
+         | None -> None)
+      | None -> None)
+   | None -> Some None)
+
+(** val replicate :
+    nat -> rstate -> nat -> entry list -> nat list -> rstate * str list **)
+
+let rec replicate fuel st dst es sizes =
+  match fuel with
+  | O -> (st, [])
+  | S k ->
+    (match es with
+     | [] -> (st, [])
+     | _ :: _ ->
+       (match sizes with
+        | [] ->
+          let sz = length es in
+          let sizes' = [] in
+          let (st', o) = do_store st dst (firstn sz es) in
+          if str_eqb o s_ok
+          then let (st'', os) = replicate k st' dst (skipn sz es) sizes' in
+               (st'', (o :: os))
+          else (st', (o :: []))
+        | z0 :: r ->
+          let sz = if Nat.eqb z0 O then S O else z0 in
+          let (st', o) = do_store st dst (firstn sz es) in
+          if str_eqb o s_ok
+          then let (st'', os) = replicate k st' dst (skipn sz es) r in
+               (st'', (o :: os))
+          else (st', (o :: []))))
+
+(** val join_with : n -> str list -> str **)
+
+let rec join_with sep = function
+| [] -> []
+| x :: r ->
+  (match r with
+   | [] -> x
+   | _ :: _ -> app x (sep :: (join_with sep r)))
+
+(** val show_entry : entry -> str **)
+
+let show_entry e =
+  join
+    ((n_to_hex e.e_index) :: ((n_to_hex e.e_term) :: ((n_to_hex e.e_type) :: (
+    (bytes_to_hex e.e_data) :: ((bytes_to_hex e.e_ext) :: [])))))
+
+(** val run_op : rstate -> str list -> (rstate * str) option **)
+
+let run_op st = function
+| [] -> None
+| op :: l ->
+  (match l with
+   | [] -> None
+   | nn :: args ->
+     (match parse_nat nn with
+      | Some n0 ->
+        if Nat.leb (length st.rs_sys) n0
+        then None
+        else if str_eqb op (k1 (Npos (XI (XO (XO (XO (XO (XI XH))))))))
+             then (match args with
+                   | [] -> None
+                   | c :: rest ->
+                     (match parse_nat c with
+                      | Some cnt ->
+                        (match parse_entries cnt rest with
+                         | Some p ->
+                           let (es, l0) = p in
+                           (match l0 with
+                            | [] -> Some (do_store st n0 es)
+                            | _ :: _ -> None)
+                         | None -> None)
+                      | None -> None))
+             else if str_eqb op (k1 (Npos (XO (XI (XO (XO (XI (XI XH))))))))
+                  then (match args with
+                        | [] -> None
+                        | d :: l0 ->
+                          (match l0 with
+                           | [] -> None
+                           | lo :: l1 ->
+                             (match l1 with
+                              | [] -> None
+                              | hi :: l2 ->
+                                (match l2 with
+                                 | [] -> None
+                                 | nm :: rest ->
+                                   (match parse_nat d with
+                                    | Some dst ->
+                                      (match hex_to_N lo with
+                                       | Some lo0 ->
+                                         (match hex_to_N hi with
+                                          | Some hi0 ->
+                                            (match parse_nat nm with
+                                             | Some nm0 ->
+                                               if Nat.leb (length st.rs_sys)
+                                                    dst
+                                               then None
+                                               else (match parse_muts nm0 rest with
+                                                     | Some p ->
+                                                       let (ms, l3) = p in
+                                                       (match l3 with
+                                                        | [] -> None
+                                                        | _ :: szs ->
+                                                          (match parse_nats
+                                                                   szs with
+                                                           | Some sizes ->
+                                                             (match read_mut
+                                                                    (node_at
+                                                                    st.rs_sys
+                                                                    n0).n_store
+                                                                    ms lo0
+                                                                    (N.to_nat
+                                                                    (N.sub
+                                                                    (N.add
+                                                                    hi0 (Npos
+                                                                    XH)) lo0)) with
+                                                              | Some o ->
+                                                                (match o with
+                                                                 | Some es ->
+                                                                   let (
+                                                                    st', os) =
+                                                                    replicate
+                                                                    (S
+                                                                    (length
+                                                                    es)) st
+                                                                    dst es
+                                                                    sizes
+                                                                   in
+                                                                   Some (st',
+                                                                   (match os with
+                                                                    | [] ->
+                                                                    s_ok
+                                                                    | _ :: _ ->
+                                                                    join_with
+                                                                    (Npos (XO
+                                                                    (XO (XI
+                                                                    (XI (XO
+                                                                    XH))))))
+                                                                    os))
+                                                                 | None ->
+                                                                   Some (st,
+                                                                    s_nf))
+                                                              | None -> None)
+                                                           | None -> None))
+                                                     | None -> None)
+                                             | None -> None)
+                                          | None -> None)
+                                       | None -> None)
+                                    | None -> None)))))
+                  else if str_eqb op
+                            (k1 (Npos (XO (XO (XI (XO (XO (XI XH))))))))
+                       then (match args with
+                             | [] -> None
+                             | mn :: l0 ->
+                               (match l0 with
+                                | [] -> None
+                                | mx :: l1 ->
+                                  (match l1 with
+                                   | [] ->
+                                     (match hex_to_N mn with
+                                      | Some mn0 ->
+                                        (match hex_to_N mx with
+                                         | Some mx0 ->
+                                           let ok =
+                                             fst
+                                               (node_delete
+                                                 (node_at st.rs_sys n0) mn0
+                                                 mx0)
+                                           in
+                                           Some
+                                           ((settle (S (S (S O)))
+                                              (do_ev st (HDelete (n0, mn0,
+                                                mx0))) n0),
+                                           (if ok then s_ok else s_er))
+                                         | None -> None)
+                                      | None -> None)
+                                   | _ :: _ -> None)))
+                       else if str_eqb op
+                                 (k1 (Npos (XO (XO (XO (XI (XI (XI XH))))))))
+                            then (match args with
+                                  | [] ->
+                                    if blocked_at st n0
+                                    then Some (st, s_no)
+                                    else Some ((do_ev st (HRestart n0)), s_ok)
+                                  | _ :: _ -> None)
+                            else if str_eqb op
+                                      (k1 (Npos (XO (XO (XI (XO (XI (XI
+                                        XH))))))))
+                                 then (match args with
+                                       | [] -> None
+                                       | ix :: l0 ->
+                                         (match l0 with
+                                          | [] -> None
+                                          | kd :: l1 ->
+                                            (match l1 with
+                                             | [] -> None
+                                             | a :: l2 ->
+                                               (match l2 with
+                                                | [] -> None
+                                                | b :: l3 ->
+                                                  (match l3 with
+                                                   | [] ->
+                                                     (match hex_to_N ix with
+                                                      | Some ix0 ->
+                                                        (match get
+                                                                 (node_at
+                                                                   st.rs_sys
+                                                                   n0).n_store
+                                                                 ix0 with
+                                                         | Some e ->
+                                                           (match apply_mut e
+                                                                    kd a b with
+                                                            | Some e' ->
+                                                              Some
+                                                                ((do_ev st
+                                                                   (HTamper
+                                                                   (n0, ix0,
+                                                                   e'))),
+                                                                s_ok)
+                                                            | None -> None)
+                                                         | None ->
+                                                           Some (st, s_nf))
+                                                      | None -> None)
+                                                   | _ :: _ -> None)))))
+                                 else if str_eqb op
+                                           (k1 (Npos (XO (XI (XI (XO (XO (XI
+                                             XH))))))))
+                                      then (match args with
+                                            | [] ->
+                                              Some ((do_ev st (HFail n0)),
+                                                s_ok)
+                                            | _ :: _ -> None)
+                                      else if str_eqb op
+                                                (k1 (Npos (XO (XI (XO (XO (XO
+                                                  (XI XH))))))))
+                                           then (match args with
+                                                 | [] ->
+                                                   Some ({ rs_sys =
+                                                     st.rs_sys; rs_blocked =
+                                                     (set_nth_b st.rs_blocked
+                                                       n0 true) }, s_ok)
+                                                 | _ :: _ -> None)
+                                           else if str_eqb op
+                                                     (k1 (Npos (XI (XO (XI
+                                                       (XO (XI (XI XH))))))))
+                                                then (match args with
+                                                      | [] ->
+                                                        Some
+                                                          ((settle (S (S (S
+                                                             O))) { rs_sys =
+                                                             st.rs_sys;
+                                                             rs_blocked =
+                                                             (set_nth_b
+                                                               st.rs_blocked
+                                                               n0 false) } n0),
+                                                          s_ok)
+                                                      | _ :: _ -> None)
+                                                else if str_eqb op
+                                                          (k1 (Npos (XI (XI
+                                                            (XI (XO (XO (XI
+                                                            XH))))))))
+                                                     then (match args with
+                                                           | [] -> None
+                                                           | ix :: l0 ->
+                                                             (match l0 with
+                                                              | [] ->
+                                                                (match 
+                                                                 hex_to_N ix with
+                                                                 | Some ix0 ->
+                                                                   Some (st,
+                                                                    (match 
+                                                                    get
+                                                                    (node_at
+                                                                    st.rs_sys
+                                                                    n0).n_store
+                                                                    ix0 with
+                                                                    | Some e ->
+                                                                    show_entry
+                                                                    e
+                                                                    | None ->
+                                                                    s_nf))
+                                                                 | None ->
+                                                                   None)
+                                                              | _ :: _ -> None))
+                                                     else if str_eqb op
+                                                               (k1 (Npos (XI
+                                                                 (XO (XO (XI
+                                                                 (XO (XI
+                                                                 XH))))))))
+                                                          then (match args with
+                                                                | [] ->
+                                                                  let s =
+                                                                    (node_at
+                                                                    st.rs_sys
+                                                                    n0).n_store
+                                                                  in
+                                                                  Some (st,
+                                                                  (join
+                                                                    (
+                                                                    (n_to_hex
+                                                                    (first_index
+                                                                    s)) :: (
+                                                                    (n_to_hex
+                                                                    (last_index
+                                                                    s)) :: []))))
+                                                                | _ :: _ ->
+                                                                  None)
+                                                          else None
+      | None -> None))
+
+(** val run_ops :
+    rstate -> str list list -> str list -> (rstate * str list) option **)
+
+let rec run_ops st gs acc =
+  match gs with
+  | [] -> Some (st, (rev_append acc []))
+  | g :: r ->
+    (match run_op st g with
+     | Some p -> let (st', o) = p in run_ops st' r (o :: acc)
+     | None -> None)
+
+(** val show_err : errkind -> str **)
+
+let show_err = function
+| ENone -> s_none
+| ECkInflight ->
+  (Npos (XI (XI (XO (XO (XO (XI XH))))))) :: ((Npos (XI (XI (XO (XI (XO (XI
+    XH))))))) :: ((Npos (XI (XO (XO (XI (XO (XI XH))))))) :: []))
+| ECkStorage ->
+  (Npos (XI (XI (XO (XO (XO (XI XH))))))) :: ((Npos (XI (XI (XO (XI (XO (XI
+    XH))))))) :: ((Npos (XI (XI (XO (XO (XI (XI XH))))))) :: []))
+| ERange ->
+  (Npos (XO (XI (XO (XO (XI (XI XH))))))) :: ((Npos (XO (XI (XI (XI (XO (XI
+    XH))))))) :: ((Npos (XI (XI (XI (XO (XO (XI XH))))))) :: []))
+| EOther ->
+  (Npos (XI (XI (XI (XI (XO (XI XH))))))) :: ((Npos (XO (XO (XI (XO (XI (XI
+    XH))))))) :: ((Npos (XO (XO (XO (XI (XO (XI XH))))))) :: []))
+
+(** val show_report : report -> str **)
+
+let show_report r =
+  join
+    (app (((Npos (XO (XI (XO (XO (XI (XO
+      XH))))))) :: []) :: ((n_to_hex r.r_start) :: ((n_to_hex r.r_end) :: (
+      (n_to_hex r.r_expected) :: ((n_to_hex r.r_written) :: ((n_to_hex
+                                                               r.r_read) :: (
+      (show_err r.r_err) :: [])))))))
+      (match r.r_skipped with
+       | Some p -> let (a, b) = p in (n_to_hex a) :: ((n_to_hex b) :: [])
+       | None ->
+         ((Npos (XI (XO (XI (XI (XO XH)))))) :: []) :: (((Npos (XI (XO (XI
+           (XI (XO XH)))))) :: []) :: [])))
+
+(** val show_node : node -> str **)
+
+let show_node nd =
+  let s = nd.n_store in
+  let c = nd.n_c in
+  join
+    (app
+      ((join (((Npos (XO (XI (XI (XI (XO (XO
+         XH))))))) :: []) :: ((n_to_hex (first_index s)) :: ((n_to_hex
+                                                               (last_index s)) :: (
+         (n_to_hex c.c_written) :: ((n_to_hex c.c_dropped) :: ((n_to_hex
+                                                                 (N.of_nat
+                                                                   (length
+                                                                    c.c_delivered))) :: []))))))) :: [])
+      (app (map (fun x -> show_report (fst x)) c.c_delivered)
+        (map (fun e ->
+          join (((Npos (XI (XO (XI (XO (XO (XO
+            XH))))))) :: []) :: ((show_entry e) :: []))) s.s_logs)))
+
+(** val release_all : rstate -> nat -> nat -> rstate **)
+
+let rec release_all st k n0 =
+  match k with
+  | O -> st
+  | S k' ->
+    release_all
+      (settle (S (S (S O))) { rs_sys = st.rs_sys; rs_blocked =
+        (set_nth_b st.rs_blocked n0 false) } n0) k' (S n0)
+
+(** val run_vfy : str list -> str **)
+
+let run_vfy ts =
+  match groups ts with
+  | [] -> s_bad
+  | l :: ops ->
+    (match l with
+     | [] -> s_bad
+     | nn :: _ ->
+       (match parse_nat nn with
+        | Some k ->
+          if Nat.ltb (S (S (S (S (S (S (S (S O)))))))) k
+          then s_bad
+          else let st0 = { rs_sys = (sys_init k); rs_blocked =
+                 (repeat false k) }
+               in
+               (match run_ops st0 ops [] with
+                | Some p ->
+                  let (st, obs) = p in
+                  let st' = release_all st k O in
+                  join_with (Npos (XO (XO (XO (XO (XO XH))))))
+                    (app obs (map show_node st'.rs_sys))
+                | None -> s_bad)
+        | None -> s_bad))
+
 (** val k_enc : str **)
 
 let k_enc =
@@ -1421,6 +2922,12 @@ let k_dec =
   (Npos (XO (XO (XI (XO (XO (XI XH))))))) :: ((Npos (XI (XO (XI (XO (XO (XI
     XH))))))) :: ((Npos (XI (XI (XO (XO (XO (XI XH))))))) :: []))
 
+(** val k_vfy : str **)
+
+let k_vfy =
+  (Npos (XO (XI (XI (XO (XI (XI XH))))))) :: ((Npos (XO (XI (XI (XO (XO (XI
+    XH))))))) :: ((Npos (XI (XO (XO (XI (XI (XI XH))))))) :: []))
+
 (** val run_line : str -> str **)
 
 let run_line line =
@@ -1429,4 +2936,6 @@ let run_line line =
   | cmd :: args ->
     if str_eqb cmd k_enc
     then run_enc args
-    else if str_eqb cmd k_dec then run_dec args else s_bad
+    else if str_eqb cmd k_dec
+         then run_dec args
+         else if str_eqb cmd k_vfy then run_vfy args else s_bad
